@@ -50,7 +50,7 @@ def replay(cfg: Config, trace: list) -> dict:
     """trace: SimCluster.log of a terminal execution. Returns {"ok": bool, "why": str, ...}"""
     cl = vcluster.Cluster()
     S, net = cl.sched, cl.net
-    job, pre = cfg.job, precompute(cfg.job)
+    job, pre = cfg.job, precompute(cfg.job)  # a fresh preschedule for this replay
     result: dict = {"outputs": None, "exception": None, "ended": False}
     calls: list = []
     state = {"registered": 0}
